@@ -261,6 +261,22 @@ func (p *Prog) inlineOverlay(overlay map[string][]byte, forceBlock map[string]bo
 					if es, isExpr := stmt.(*ast.ExprStmt); nres == 0 && !(isExpr && ast.Unparen(es.X) == ast.Expr(call)) {
 						return true
 					}
+					// the body is moved in front of the statement: nothing of the statement may be evaluated before the call
+					earlier := false
+					ast.Inspect(stmt, func(q ast.Node) bool {
+						if _, isLit := q.(*ast.FuncLit); isLit {
+							return false
+						}
+						if oc, isCall := q.(*ast.CallExpr); isCall && oc != call && oc.Pos() < call.Pos() && !containsNode(oc, call) {
+							if _, conv := isConversion(info, oc); !conv {
+								earlier = true
+							}
+						}
+						return true
+					})
+					if earlier {
+						return true
+					}
 					var b strings.Builder
 					var bound []string
 					bind := func(name string, t types.Type, arg string) bool {
